@@ -132,6 +132,7 @@ def tasks(ctx):
     # "from power-on": the machine gameboy.New builds satisfies the invariants (worldOK) all of the above are proved under
     import props.wiring as wr
     ts.append(LemmaTask("lemma:power-on", lambda c, e, ce: wr.power_on(c, e, ce, wiring=False), ["gameboy.New", "memory.New", "ppu.New", "oam.New", "audio.New", "timer.New"]))
+    ts.extend(mc.invariant_tasks(ctx))
     return filter_tasks(ts)
 
 
